@@ -57,6 +57,7 @@ type caseIn struct {
 	Thresh   int      `json:"thresh"`
 	Rev0     [][2]int `json:"rev0"`
 	Steps    []stepIn `json:"steps"`
+	SliceMode int     `json:"slicemode,omitempty"` // 1 reuse one slice, 2 windows of one array, 3 fresh slices; 0 = derived
 }
 
 // ---------------------------------------------------------------- wrappers
@@ -296,6 +297,14 @@ func call(f func() error) (err error, blocked bool) {
 	}
 }
 
+// j2mode derives the producer's slice discipline from the case itself (stable under -replay)
+func j2mode(c *caseIn) uint64 {
+	if c.SliceMode > 0 {
+		return uint64(c.SliceMode - 1)
+	}
+	return uint64(len(c.Steps)+len(c.Rev0)+c.Thresh) % 3
+}
+
 type pendingWrite struct {
 	term string
 	done chan error
@@ -511,17 +520,39 @@ func runCase(c *caseIn, r *rng.R) (res result) {
 		}
 		return ""
 	}
-	mkPoints := func(lens []int) ([]*message.DataPoint, []ptT) {
+	// The harness writes the way real producers do: sliceMode 0 reuses ONE slice variable for all
+	// successive writes (buf[i] = p; WriteDataPoints(ctx, id, buf[:n]...)), sliceMode 1 passes windows of
+	// one backing array with spare capacity, sliceMode 2 a fresh slice per write.  If the library keeps
+	// the caller's slice instead of copying it, buffered or stored chunks then alias caller memory.
+	sliceMode := int(j2mode(c))
+	reuseBuf := make([]*message.DataPoint, 8)
+	backing := make([]*message.DataPoint, 0, 4096)
+	mkPointsMode := func(lens []int, mode int) ([]*message.DataPoint, []ptT) {
 		var dps []*message.DataPoint
 		var pts []ptT
-		for _, ln := range lens {
+		start := len(backing)
+		for i, ln := range lens {
 			elapsed++
 			p := &message.DataPoint{ElapsedTime: time.Duration(elapsed), Payload: r.Bytes(ln)}
-			dps = append(dps, p)
+			switch {
+			case mode == 0 && i < len(reuseBuf):
+				reuseBuf[i] = p
+			case mode == 1:
+				backing = append(backing, p)
+			default:
+				dps = append(dps, p)
+			}
 			pts = append(pts, ptOf(p))
+		}
+		switch {
+		case mode == 0 && len(lens) <= len(reuseBuf):
+			dps = reuseBuf[:len(lens)]
+		case mode == 1:
+			dps = backing[start:len(backing)]
 		}
 		return dps, pts
 	}
+	mkPoints := func(lens []int) ([]*message.DataPoint, []ptT) { return mkPointsMode(lens, sliceMode) }
 	sendAck := func(aliases [][2]int, seqs []uint32) string {
 		e.mu.Lock()
 		ack := &message.UpstreamChunkAck{StreamIDAlias: e.alias, DataIDAliases: map[uint32]*message.DataID{}}
@@ -773,7 +804,7 @@ func runCase(c *caseIn, r *rng.R) (res result) {
 			if linkUp || streamClosed || c.Policy != "none" {
 				continue
 			}
-			dps, pts := mkPoints(op.Lens)
+			dps, pts := mkPointsMode(op.Lens, 2) // a call in flight owns its slice: never reused meanwhile
 			e.mu.Lock()
 			did := e.did(op.ID)
 			e.mu.Unlock()
@@ -1164,6 +1195,7 @@ type genOpts struct {
 	nPre     int    // write+flush pairs before the cut
 	ackMode  int    // 0 none, 1 all, 2 first half, 3 alternate
 	cutPos   int    // the cut happens after the cutPos-th pair (0..nPre); acks scripted before it apply
+	cutAck   []int  // just before the cut: acknowledge the outstanding chunks of these ranks (any subset, out of order)
 	silent   bool
 	early    int    // write(+flush) pairs between cut and detection
 	earlyBuf bool   // one more write without flush before detection (final flush at cancellation)
@@ -1231,6 +1263,9 @@ func build(o genOpts, r *rng.R) []stepIn {
 		s = append(s, wf(1+r.Intn(3), lens()...)...)
 		acks(k)
 	}
+	if len(o.cutAck) > 0 {
+		s = append(s, stepIn{Op: "ack", Ranks: o.cutAck})
+	}
 	outage(o.silent, o.early, o.earlyBuf, o.pwrites, o.outcomes, o.cutAt)
 	for k := o.cutPos + 1; k <= o.nPre; k++ {
 		s = append(s, wf(1+r.Intn(3), lens()...)...)
@@ -1255,6 +1290,19 @@ func genCase(r *rng.R) *caseIn {
 	}
 	o := genOpts{nPre: 2 + r.Intn(4), ackMode: r.Intn(4), silent: r.Chance(1, 3), post: r.Intn(3), close: r.Chance(2, 3)}
 	o.cutPos = r.Intn(o.nPre + 1)
+	if o.cutPos >= 2 && r.Chance(1, 2) {
+		// out-of-order acknowledgement: nothing acknowledged per pair, then a random subset of the chunks
+		// in flight (always leaving at least one earlier chunk unacknowledged behind an acknowledged one)
+		o.ackMode = 0
+		hi := 1 + r.Intn(o.cutPos-1)
+		o.cutAck = []int{hi}
+		for i := 1; i < hi; i++ {
+			if r.Bool() {
+				o.cutAck = append(o.cutAck, i)
+			}
+		}
+		sort.Ints(o.cutAck)
+	}
 	if r.Chance(1, 3) {
 		o.early = 1 + r.Intn(2)
 	}
@@ -1287,12 +1335,22 @@ func genCase(r *rng.R) *caseIn {
 
 // every cut position x ack subset x death mode of a short history (payload-keeping storage)
 func genExhaustive(n int, add func(*caseIn, string), r *rng.R) {
+	// every cut position x EVERY subset of the chunks in flight acknowledged before the cut (acks are per
+	// chunk: a later chunk may be acknowledged while earlier ones are not) x death mode x slice discipline
+	k := 0
 	for pos := 0; pos <= n; pos++ {
-		for am := 0; am < 4; am++ {
+		for mask := 0; mask < 1<<pos; mask++ {
 			for _, silent := range []bool{false, true} {
-				c := &caseIn{Keep: true, Reliable: true, Policy: "none"}
-				c.Steps = build(genOpts{nPre: n, ackMode: am, cutPos: pos, silent: silent, outcomes: []string{"ok"}, post: 1, close: true}, r.Fork())
-				add(c, "exhaustive-cutpos")
+				var ranks []int
+				for i := 0; i < pos; i++ {
+					if mask&(1<<i) != 0 {
+						ranks = append(ranks, i)
+					}
+				}
+				k++
+				c := &caseIn{Keep: true, Reliable: true, Policy: "none", SliceMode: 1 + k%3}
+				c.Steps = build(genOpts{nPre: n, ackMode: 0, cutPos: pos, cutAck: ranks, silent: silent, outcomes: []string{"ok"}, post: 1, close: true}, r.Fork())
+				add(c, "exhaustive-cutpos-acksubset")
 			}
 		}
 	}
@@ -1414,7 +1472,7 @@ func main() {
 		}
 		w.Add(cs)
 	}
-	rule := "exhaustive: every cut position (before/after each of n write+flush pairs) x 4 ack subsets (none, all, first half, alternate) x loud/silent death, resume ok, one more write, close; random: 2-5 pairs, cut anywhere, writes between the cut and its detection (chunk lost / final flush at cancellation), writes issued while resuming, resume outcomes ok / conflict(s)-then-ok / refused / exchange cut, a second outage (during the resend phase after the k-th resent chunk, or later), policies none/size/immediate, payload-keeping and default storage, 10% unreliable. non-trivial = an outage with >=1 stored unacknowledged chunk and a write accepted after it, or >=1 retransmitted chunk; distinct = distinct Coq case terms"
+	rule := "exhaustive: every cut position (before/after each of n write+flush pairs) x every subset of the chunks in flight acknowledged before the cut (out of order included) x loud/silent death x producer slice discipline (one reused slice / windows of one array / fresh), resume ok, one more write, close; random: 2-5 pairs, cut anywhere, writes between the cut and its detection (chunk lost / final flush at cancellation), writes issued while resuming, resume outcomes ok / conflict(s)-then-ok / refused / exchange cut, a second outage (during the resend phase after the k-th resent chunk, or later), policies none/size/immediate, payload-keeping and default storage, 10% unreliable. non-trivial = an outage with >=1 stored unacknowledged chunk and a write accepted after it, or >=1 retransmitted chunk; distinct = distinct Coq case terms"
 	if err := w.Flush(*seed, *tier, rule, false, map[string]interface{}{"timing_discards": discards}); err != nil {
 		fmt.Fprintln(os.Stderr, err)
 		os.Exit(2)
